@@ -104,6 +104,30 @@ def correspond(ctx, scale):
                         ov = out[b1, t1, h * d:(h + 1) * d].detach().double().tolist()
                         cases.append(f'value_check {qlit(TOL)} {coqbool(rot)} {qvec(xv)} {qvec(qv)} {qvec(ov)}')
                         meta.append(dict(kind='vq-forward-value', kw=kw, token=(b1, t1), head=h))
+        if cosine:
+            # cosine codebooks: out = est(l2norm(x)), so J = A . J_norm with J_norm = (I - xh xh^T)/|x|.  On directions v orthogonal to x the
+            # normalisation acts as v/|x|, hence J v must equal the model's tangent of the estimator at the NORMALISED input in direction v/|x|;
+            # along x itself the derivative vanishes (scale invariance)
+            xraw = vq.project_in(x).reshape(b, nn_, heads, d).double()
+            for b1 in range(b):
+                for t1 in range(nn_):
+                    for h in range(heads):
+                        xr = xraw[b1, t1, h]
+                        nrm = float(xr.norm())
+                        if nrm < 1e-3 or d < 2:
+                            continue
+                        xh = xr / nrm
+                        Mq = torch.linalg.qr(torch.cat([xh[:, None], torch.randn(d, d - 1, dtype=torch.float64)], dim=1))[0]
+                        Jb = J[b1, t1, h * d:(h + 1) * d, b1, t1, h * d:(h + 1) * d].double()
+                        qv = cb[h if sep else 0][int(ii[b1, t1, h])].double().tolist()
+                        if float((Jb @ xh).abs().max()) > 1e-4:
+                            fail('vq:cosine-radial-derivative', f'VectorQuantize({kw}): the output of a cosine codebook changes when the input is rescaled (radial derivative {float((Jb @ xh).abs().max()):.3g})', dict(kw=kw))
+                        for c in range(1, d):
+                            vdir = Mq[:, c]
+                            col = (Jb @ vdir).tolist()
+                            cases.append(f'tangent_check {qlit(Fraction(1, 10 ** 3))} true true {coqbool(rot)} {qlit(Fraction(v))} {qvec(xh.tolist())} {qvec(qv)} {qvec((vdir / nrm).tolist())} {qvec(col)}')
+                            meta.append(dict(kind='vq-cosine-tangent', kw=kw, token=(b1, t1), head=h, k=c))
+                            dist['cosine_tangent_columns'] = dist.get('cosine_tangent_columns', 0) + 1
         # commitment loss gradient w.r.t. the input (through the loss only) and w.r.t. the codebook
         if not cosine and heads == 1:
             vq.zero_grad()
